@@ -42,6 +42,7 @@ CONSTANTS N,                       \* number of step ids
           MaxDirty,                \* modifications between two recomputations (model mode)
           States, Needs, MaxHold,  \* step states (P R S F), need ranks (1 OPTIONAL, 2 DEFAULT, 4 PLAN), nesting of hold()
           EnableCons,              \* FALSE: no consumer edges (the _safe side alone)
+          EnableOut,               \* FALSE: outputs stay PLANNED, no dynamic edges (no _ready side)
           UseMin,                  \* pre-F1 variant of FILL_SAFE_UPDATE
           FlagProducerOnEdgeLoss   \* FALSE: pre-F2 variant of the dependency delete trigger
 
@@ -67,7 +68,13 @@ G0 == [ex   |-> [s \in Steps |-> s = 1],
        impl |-> [s \in Steps |-> IF s = 1 THEN 4 ELSE 2],
        tail |-> [s \in Steps |-> 1],
        ckS  |-> [s \in Steps |-> FALSE],
-       ckA  |-> [s \in Steps |-> s = 1]]
+       ckA  |-> [s \in Steps |-> s = 1],
+       \* the _ready side: state of the output o_s of every step, which consumer edges are dynamic
+       \* (amended), the cached _ready and its flag
+       fo    |-> [s \in Steps |-> "PLANNED"],
+       dynE  |-> {},
+       ready |-> [s \in Steps |-> FALSE],
+       ckR   |-> [s \in Steps |-> s = 1]]
 
 Kids(g, s) == {x \in Steps : g.ex[x] /\ g.cr[x] = s}
 RECURSIVE Sub(_, _)
@@ -76,6 +83,7 @@ RECURSIVE Anc(_, _)
 Anc(g, s) == IF g.cr[s] \in Steps THEN {g.cr[s]} \cup Anc(g, g.cr[s]) ELSE {}
 Consumers(g, p) == {c \in Steps : <<p, c>> \in g.cons /\ g.ex[c] /\ ~g.det[c]}
 Producers(g, c) == {p \in Steps : <<p, c>> \in g.cons}
+ConsumersAll(g, p) == {c \in Steps : <<p, c>> \in g.cons /\ g.ex[c]}      \* detached ones included
 RECURSIVE Reach(_, _)
 Reach(g, p) == LET d == {c \in Steps : <<p, c>> \in g.cons} IN d \cup UNION {Reach(g, c) : c \in d}
 
@@ -91,10 +99,40 @@ ImplDef(g, s) == SetMax({g.need[s]} \cup {ImplDef(g, c) : c \in Consumers(g, s)}
 RECURSIVE TailDef(_, _)
 TailDef(g, s) == 1 + SetMax({0} \cup {TailDef(g, c) : c \in Consumers(g, s)})
 
+\* UNAVAILABLE_INPUT_WHERE (step.py) for the input o_p of c: a dynamic input blocks only while it is an
+\* attached PLANNED / OUTDATED output, an initial input unless it is attached and BUILT
+Blocks(g, p, c) ==
+  IF <<p, c>> \in g.dynE THEN ~g.det[p] /\ g.fo[p] \in {"PLANNED", "OUTDATED"}
+  ELSE g.det[p] \/ g.fo[p] # "BUILT"
+ReadyDef(g, c) == \A p \in Producers(g, c) : ~Blocks(g, p, c)
+
 (* ------------------------------- flagging ------------------------------ *)
 FlagS(g, S) == [g EXCEPT !.ckS = [x \in Steps |-> @[x] \/ (x \in S /\ g.ex[x])]]
 FlagA(g, S) == [g EXCEPT !.ckA = [x \in Steps |-> @[x] \/ (x \in S /\ g.ex[x])]]
 FlagBoth(g, S) == FlagA(FlagS(g, S), S)     \* RECURSIVE_CHECK_WITH_PRODUCTS
+FlagR(g, S) == [g EXCEPT !.ckR = [x \in Steps |-> @[x] \/ (x \in S /\ g.ex[x])]]
+\* triggers on file.state / node.detached of the output of the steps in X: their consumers
+FlagRConsumers(g, X) == FlagR(g, UNION {ConsumersAll(g, x) : x \in X})
+
+\* Workflow.mark_step_pending, closed under its cascade (mark_file_outdated ->
+\* mark_consuming_steps_pending): RUNNING steps ignore it; a step that was SUCCEEDED or FAILED has its
+\* BUILT output outdated, whose consumers (detached ones included) are marked in turn.  set_state fires
+\* the _check_safe trigger also when the state was PENDING already.
+RECURSIVE Cascade(_, _, _)
+Cascade(g, P, W) ==
+  IF W = {} THEN P
+  ELSE LET s == CHOOSE s \in W : TRUE IN
+       IF s \in P \/ ~g.ex[s] \/ g.st[s] = "R" THEN Cascade(g, P, W \ {s})
+       ELSE IF g.st[s] \in {"S", "F"} /\ g.fo[s] = "BUILT"
+            THEN Cascade(g, P \cup {s}, (W \ {s}) \cup ConsumersAll(g, s))
+            ELSE Cascade(g, P \cup {s}, W \ {s})
+MarkPending(g, seeds) ==
+  LET P == Cascade(g, {}, seeds)
+      outd == {s \in P : g.st[s] \in {"S", "F"} /\ g.fo[s] = "BUILT"}
+      h == [g EXCEPT !.st = [x \in Steps |-> IF x \in P THEN "P" ELSE @[x]],
+                     !.hold = [x \in Steps |-> IF x \in P THEN 0 ELSE @[x]],
+                     !.fo = [x \in Steps |-> IF x \in outd THEN "OUTDATED" ELSE @[x]]]
+  IN FlagRConsumers(FlagS(h, P), outd)
 
 (* ---------------------- the graph modifications ------------------------ *)
 \* Trellis.create + Step.initialize_row (a step that never existed): a fresh PENDING row, unsafe and
@@ -103,7 +141,7 @@ CreateEn(g, s, c, n) == ~g.ex[s] /\ c \in Steps /\ g.ex[c] /\ c # s /\ n \in Nee
 DoCreate(g, s, c, n) ==
   [g EXCEPT !.ex[s] = TRUE, !.cr[s] = c, !.det[s] = g.det[c], !.st[s] = "P", !.hold[s] = 0,
             !.need[s] = n, !.safe[s] = FALSE, !.nh[s] = FALSE, !.impl[s] = n, !.tail[s] = 1,
-            !.ckS[s] = TRUE, !.ckA[s] = TRUE]
+            !.ckS[s] = TRUE, !.ckA[s] = TRUE, !.fo[s] = "PLANNED", !.ready[s] = FALSE, !.ckR[s] = TRUE]
 
 \* Step.set_state: trigger step_flag_check_safe flags the row itself; trigger step_reset_holding drops
 \* the holds of a step that leaves RUNNING (without flagging anything else)
@@ -124,7 +162,8 @@ DoDetach(g, s) ==
   LET sub == Sub(g, s)
       h == [g EXCEPT !.cr[s] = NONE, !.det = [x \in Steps |-> @[x] \/ x \in sub]]
       src == {p \in Steps : h.ex[p] /\ ~h.det[p] /\ \E x \in sub : <<p, x>> \in h.cons}
-  IN FlagA(FlagBoth(h, sub), src)
+      flipped == {x \in sub : ~g.det[x]}
+  IN FlagRConsumers(FlagA(FlagBoth(h, sub), src), flipped)
 
 \* Trellis.try_recycle: Node.reattach (the subtree inherits the detached flag of the new creator, the
 \* subtree is flagged) + Step.after_recycle (need replaced, holds dropped, FAILED or SUCCEEDED-without-
@@ -134,10 +173,11 @@ DoRecycle(g, s, c, n) ==
   LET sub == Sub(g, s)
       h == [g EXCEPT !.cr[s] = c, !.det = [x \in Steps |-> IF x \in sub THEN g.det[c] ELSE @[x]],
                      !.need[s] = n, !.hold[s] = 0]
-      f == FlagBoth(h, sub)
+      flipped == {x \in sub : g.det[x] # g.det[c]}
+      f == FlagRConsumers(FlagBoth(h, sub), flipped)
   \* (steps of this model never have a stored step hash -- states are set directly, not through
   \* mark_completed -- so a SUCCEEDED one is "SUCCEEDED without hash" and is made PENDING as well)
-  IN IF g.st[s] \in {"F", "S"} THEN DoSetState(f, s, "P") ELSE f
+  IN IF g.st[s] \in {"F", "S"} THEN MarkPending(f, {s}) ELSE f
 
 \* Trellis.create on a detached row with an incompatible declaration: new creator, the row is
 \* initialised again, every tie to its sources is cut (its output keeps its consumers), its product
@@ -147,20 +187,44 @@ RECURSIVE DetachAll(_, _)
 DetachAll(g, K) == IF K = {} THEN g ELSE LET x == CHOOSE x \in K : TRUE IN DetachAll(DoDetach(g, x), K \ {x})
 DoRecreate(g, s, c, n) ==
   LET ps == Producers(g, s)
-      h0 == [g EXCEPT !.cr[s] = c, !.det[s] = g.det[c], !.cons = {e \in @ : e[2] # s}]
+      h0 == [g EXCEPT !.cr[s] = c, !.det[s] = g.det[c], !.cons = {e \in @ : e[2] # s}, !.dynE = {e \in @ : e[2] # s}]
       \* delete trigger: both ends and (F2) the producer of the file that lost a consumer
       h1 == IF FlagProducerOnEdgeLoss THEN FlagA(h0, ps) ELSE h0
       h2 == DetachAll(h1, Kids(g, s))
-  IN [h2 EXCEPT !.st[s] = "P", !.hold[s] = 0, !.need[s] = n, !.safe[s] = FALSE, !.nh[s] = FALSE,
-                !.impl[s] = n, !.tail[s] = 1, !.ckS[s] = TRUE, !.ckA[s] = TRUE]
+      h3 == [h2 EXCEPT !.st[s] = "P", !.hold[s] = 0, !.need[s] = n, !.safe[s] = FALSE, !.nh[s] = FALSE,
+                       !.impl[s] = n, !.tail[s] = 1, !.ckS[s] = TRUE, !.ckA[s] = TRUE, !.ready[s] = FALSE, !.ckR[s] = TRUE]
+      \* the output o_s is declared again: the file node is re-created (it keeps its consumers);
+      \* File.initialize_row keeps a BUILT / OUTDATED state instead of PLANNED, and a BUILT one is
+      \* outdated at once (mark_file_outdated: consumers are marked pending)
+      h4 == IF g.det[c] # TRUE THEN FlagRConsumers(h3, {s}) ELSE h3
+  IN IF g.fo[s] = "BUILT"
+     THEN MarkPending(FlagRConsumers([h4 EXCEPT !.fo[s] = "OUTDATED"], {s}), ConsumersAll(g, s))
+     ELSE h4
 
 \* Node.add_source(file of p) on c: insert trigger flags the sink step (the source is a file)
 AddConsEn(g, p, c) == g.ex[p] /\ g.ex[c] /\ p # c /\ <<p, c>> \notin g.cons /\ p \notin Reach(g, c)
-DoAddCons(g, p, c) == FlagA([g EXCEPT !.cons = @ \cup {<<p, c>>}], {c})
+\* dyn: the edge is marked dynamic (dynamic_dep row: amended); both inserts flag _check_ready of the sink
+DoAddCons(g, p, c, dyn) ==
+  FlagR(FlagA([g EXCEPT !.cons = @ \cup {<<p, c>>}, !.dynE = IF dyn THEN @ \cup {<<p, c>>} ELSE @], {c}), {c})
 \* Node.del_sources: delete trigger flags the sink step and the producer of the file
 DelConsEn(g, p, c) == <<p, c>> \in g.cons
 DoDelCons(g, p, c) ==
-  FlagA([g EXCEPT !.cons = @ \ {<<p, c>>}], IF FlagProducerOnEdgeLoss THEN {p, c} ELSE {c})
+  FlagR(FlagA([g EXCEPT !.cons = @ \ {<<p, c>>}, !.dynE = @ \ {<<p, c>>}], IF FlagProducerOnEdgeLoss THEN {p, c} ELSE {c}), {c})
+
+\* the output of p changes state:
+\*   built     update_file_hashes(cause SUCCEEDED): PLANNED / OUTDATED -> BUILT, "completed": consumers pending
+\*   outdate   mark_file_outdated: BUILT -> OUTDATED, consumers pending
+\*   vanish    update_file_hashes(cause EXTERNAL, absent): BUILT / OUTDATED -> PLANNED, "deleted": the
+\*             producer and the consumers pending
+OutEn(g, p, k) == /\ EnableOut /\ g.ex[p]
+                  /\ CASE k = "built" -> g.fo[p] \in {"PLANNED", "OUTDATED"}
+                       [] k = "outdate" -> g.fo[p] = "BUILT"
+                       [] k = "vanish" -> g.fo[p] \in {"BUILT", "OUTDATED"}
+                       [] OTHER -> FALSE
+DoOut(g, p, k) ==
+  LET new == CASE k = "built" -> "BUILT" [] k = "outdate" -> "OUTDATED" [] OTHER -> "PLANNED"
+      h == FlagRConsumers([g EXCEPT !.fo[p] = new], {p})
+  IN MarkPending(h, IF k = "vanish" THEN {p} \cup ConsumersAll(g, p) ELSE ConsumersAll(g, p))
 
 (* ------------------------- the recomputations --------------------------- *)
 \* FILL_SAFE_UPDATE.  Row(a, i): the row of node i in the walk seeded at the flagged node a
@@ -197,13 +261,18 @@ AfterLoop(g, check, first) ==
 DoUpdateAfter(g) ==
   LET h == AfterLoop(g, {s \in Steps : g.ex[s] /\ ~g.det[s] /\ g.ckA[s]}, TRUE)
   IN [h EXCEPT !.ckA = [s \in Steps |-> FALSE]]
-DoUpdate(g) == DoUpdateAfter(DoUpdateSafe(g))
+\* RECOMPUTE_READY: the flagged rows (detached ones included) from the definition
+DoUpdateReady(g) ==
+  [g EXCEPT !.ready = [s \in Steps |-> IF g.ex[s] /\ g.ckR[s] THEN ReadyDef(g, s) ELSE @[s]],
+            !.ckR = [s \in Steps |-> FALSE]]
+DoUpdate(g) == DoUpdateReady(DoUpdateAfter(DoUpdateSafe(g)))
 
 (* ------------------------------ properties ------------------------------ *)
-Clean(g) == \A s \in Steps : ~g.ckS[s] /\ ~g.ckA[s]
+Clean(g) == \A s \in Steps : ~g.ckS[s] /\ ~g.ckA[s] /\ ~g.ckR[s]
 Att(g) == {s \in Steps : g.ex[s] /\ ~g.det[s]}
 SafeExact(g) == \A s \in Att(g) : g.safe[s] = SafeDef(g, s) /\ g.nh[s] = NhDef(g, s)
 AfterExact(g) == \A s \in Att(g) : g.impl[s] = ImplDef(g, s) /\ g.tail[s] = TailDef(g, s)
+ReadyExact(g) == \A s \in Steps : g.ex[s] => g.ready[s] = ReadyDef(g, s)
 TreeOK(g) == \A s \in Steps : g.ex[s] =>
                /\ (g.cr[s] \in Steps => g.ex[g.cr[s]] /\ g.cr[s] # s)
                /\ (g.cr[s] = NONE => g.det[s])
@@ -223,12 +292,15 @@ MNext ==
      \/ \E s \in Steps : DetachEn(g, s) /\ Modify(DoDetach(g, s))
      \/ \E s \in Steps, c \in Steps, n \in Needs : RecycleEn(g, s, c, n) /\ Modify(DoRecycle(g, s, c, n))
      \/ \E s \in Steps, c \in Steps, n \in Needs : RecreateEn(g, s, c, n) /\ Modify(DoRecreate(g, s, c, n))
-     \/ EnableCons /\ \E p \in Steps, c \in Steps : AddConsEn(g, p, c) /\ Modify(DoAddCons(g, p, c))
+     \/ EnableCons /\ \E p \in Steps, c \in Steps, dyn \in (IF EnableOut THEN BOOLEAN ELSE {FALSE}) :
+           AddConsEn(g, p, c) /\ Modify(DoAddCons(g, p, c, dyn))
+     \/ \E p \in Steps, k \in {"built", "outdate", "vanish"} : OutEn(g, p, k) /\ Modify(DoOut(g, p, k))
      \/ EnableCons /\ \E p \in Steps, c \in Steps : DelConsEn(g, p, c) /\ Modify(DoDelCons(g, p, c))
      \/ dirty > 0 /\ g' = DoUpdate(g) /\ dirty' = 0
 MSpec == MInit /\ [][MNext]_vars
 CacheExactSafe == Clean(g) => SafeExact(g)
 CacheExactAfter == Clean(g) => AfterExact(g)
+CacheExactReady == Clean(g) => ReadyExact(g)
 TreeWellFormed == TreeOK(g)
 
 (* -------------------------------- replay -------------------------------- *)
@@ -242,16 +314,20 @@ Apply(h, a) ==
     [] a.a = "detach"   -> IF DetachEn(h, a.s) THEN <<TRUE, DoDetach(h, a.s)>> ELSE <<FALSE, h>>
     [] a.a = "recycle"  -> IF RecycleEn(h, a.s, a.c, a.n) THEN <<TRUE, DoRecycle(h, a.s, a.c, a.n)>> ELSE <<FALSE, h>>
     [] a.a = "recreate" -> IF RecreateEn(h, a.s, a.c, a.n) THEN <<TRUE, DoRecreate(h, a.s, a.c, a.n)>> ELSE <<FALSE, h>>
-    [] a.a = "addcons"  -> IF AddConsEn(h, a.p, a.c) THEN <<TRUE, DoAddCons(h, a.p, a.c)>> ELSE <<FALSE, h>>
+    [] a.a = "addcons"  -> IF AddConsEn(h, a.p, a.c) THEN <<TRUE, DoAddCons(h, a.p, a.c, a.dyn)>> ELSE <<FALSE, h>>
+    [] a.a = "out"      -> IF OutEn(h, a.p, a.k) THEN <<TRUE, DoOut(h, a.p, a.k)>> ELSE <<FALSE, h>>
     [] a.a = "delcons"  -> IF DelConsEn(h, a.p, a.c) THEN <<TRUE, DoDelCons(h, a.p, a.c)>> ELSE <<FALSE, h>>
     [] a.a = "update"   -> <<TRUE, DoUpdate(h)>>
 Proj(h) == [ex |-> h.ex, cr |-> h.cr, det |-> h.det, st |-> h.st, hold |-> h.hold, need |-> h.need,
             safe |-> h.safe, nh |-> h.nh, impl |-> h.impl, tail |-> h.tail, ckS |-> h.ckS, ckA |-> h.ckA,
+            fo |-> h.fo, ready |-> h.ready, ckR |-> h.ckR,
+            inp |-> [c \in Steps |-> {<<p, <<p, c>> \in h.dynE>> : p \in Producers(h, c)}],
+            dready |-> [s \in Steps |-> h.ex[s] /\ ReadyDef(h, s)],
             \* the definitions, evaluated on the structure alone
             dsafe |-> [s \in Steps |-> h.ex[s] /\ SafeDef(h, s)], dnh |-> [s \in Steps |-> h.ex[s] /\ NhDef(h, s)],
             dimpl |-> [s \in Steps |-> IF h.ex[s] THEN ImplDef(h, s) ELSE 0],
             dtail |-> [s \in Steps |-> IF h.ex[s] THEN TailDef(h, s) ELSE 0],
-            exact |-> (~Clean(h) \/ (SafeExact(h) /\ AfterExact(h)))]
+            exact |-> (~Clean(h) \/ (SafeExact(h) /\ AfterExact(h) /\ ReadyExact(h)))]
 Init == l = 1 /\ out = <<>> /\ g = 0 /\ dirty = 0 /\ ak = 0 /\ cur = DoUpdate(G0) /\ acc = <<>>
 Next ==
   /\ l <= NL
